@@ -9,7 +9,8 @@ import re, struct
 from vlib.engine import Prop, Failure
 from props import msagen as G
 
-MODELLED = ["afa"]
+MODELLED = ["afa", "a2m", "psiblast", "clustal", "clustallike", "phylip", "phylips", "selex", "stockholm", "pfam"]      # writer + reader models, bytes and re-read alignment compared
+WRITER_ONLY = []
 ALL_FORMATS = G.FORMATS
 GAPS_TEXT = b"-._~"
 
@@ -55,12 +56,21 @@ def unhex(h):
 
 class C03(Prop):
     id = "C03"
-    lean_modules = ["EaselModel.Props.C03"]
+    lean_modules = ["EaselModel.Props.C03", "EaselModel.Msafile.WriteLemmas"]
     lean_exe = "c03_driver"
     harness = "h_msafile.c"
-    theorems = ["EaselModel.Props.C03." + t for t in ("afa_write_deterministic", "afa_roundtrip_text", "afa_roundtrip_digital", "afa_roundtrip",
-                                                      "afa_write_accepted", "afa_preserves_names_rows", "afa_rewrite_same_text", "afa_rewrite_same_digital")] + [
-        "EaselModel.Msafile.afaRead_write", "EaselModel.Msafile.splitLines_join", "EaselModel.Msafile.afaDigitalWritable_writable"]
+    theorems = ["EaselModel.Props.C03." + t for t in (
+        "afa_write_deterministic", "afa_roundtrip_text", "afa_roundtrip_digital", "afa_roundtrip", "afa_write_accepted", "afa_preserves_names_rows",
+        "afa_rewrite_same_text", "afa_rewrite_same_digital",
+        "phylip_strtoi32_natDec", "phylips_roundtrip_text", "phylips_roundtrip_digital", "phylips_roundtrip", "phylip_roundtrip_text", "phylip_roundtrip_digital",
+        "phylip_roundtrip", "phylips_write_accepted", "phylip_write_accepted", "phylip_rewrite_same_text", "phylip_rewrite_same_digital",
+        "phylip_preserves_names_rows", "phylip_write_deterministic")] + [
+        "EaselModel.Msafile.afaRead_write", "EaselModel.Msafile.splitLines_join", "EaselModel.Msafile.afaDigitalWritable_writable"] + [
+        "EaselModel.Msafile." + t for t in ("stockholmWrite_eq", "stockholmWrite_magic", "blockStarts_length", "blockStarts_lt", "stockholm_blocks", "pfam_blocks",
+                                            "strtokLF_tokens", "hasDupNames_iff", "phylipWrite_header", "phylipInterleaved_empty", "phylip_blocks", "phyRowLine_first",
+                                            "padRight_length", "padTrunc_length", "consensusLine_length", "textConsensusLine_chars", "digitalConsChar_range",
+                                            "clustalWrite_header", "clustalBlockLines_length", "selexNameLen_ge", "psiBlockLines_length", "psiChar_text_noO",
+                                            "a2mSeqLoop_width", "joinLF_getLast")]
     claimed = True
     technique = ("Lean 4 proof (writers as functions Msa -> Bytes composed with the C01 reader models) + exact differential correspondence of written bytes "
                  "and re-read alignments with the ASan/UBSan/LSan-built library + round-trip monitors on all ten formats")
@@ -82,23 +92,46 @@ class C03(Prop):
     trusted_base = ["hand model of the writers/readers tied by exact differential run (h_msafile.c op rt: bytes written and alignment read back compared)",
                     "Lean compiler/runtime for the executable driver; gcc; sanitizer runtimes",
                     "printf(\"%.2f\"/\"%.1f\") and strtod on 2-/1-decimal values are inverse (weights and cut-offs are generated with that many decimals)"]
-    assumptions = ["allocation never fails; fprintf never fails (eslEWRITE paths not modelled)",
+    assumptions = ["autodetection of library-written PHYLIP may answer eslENOFORMAT with the documented message \"can't guess format: it's consistent w/ both phylip, phylips\" "
+                   "(eslEAMBIGUOUS of esl_msafile_phylip_CheckFileFormat): the monitor accepts exactly that outcome (the harness asks esl_msafile_GuessFileFormat for its message) and no other autodetection failure",
+                   "allocation never fails; fprintf never fails (eslEWRITE paths not modelled)",
                    "alignments are built through the public ESL_MSA API from the op fields; names non-empty, blank-free; annotation from the legal character sets"]
     rule = ("cases = (alignment with independently present optional fields, output format, text/amino/DNA/RNA); non-trivial = written, read back with eslOK and "
             "compared field by field; distinct by full output trace")
 
     # ------------------------------------------------------------------------------------------
+    avoid_known = True        # keep the generator out of the known-finding regions (the differential runner switches this off)
+
+    def annotate_all(self, rng, a):
+        """every optional field at once"""
+        L, n = a.alen, a.n
+        col = lambda chars: "".join(rng.choice(chars) for _ in range(L))
+        text = lambda k=20: "".join(rng.choice("abcdefghijklmnopqrstuvwxyz ABCXYZ0123456789.,;:()[]-_") for _ in range(rng.randrange(1, k))).strip() or "x"
+        a.name = a.name or G.rand_name(rng); a.adesc = a.adesc or text(40); a.aacc = a.aacc or "PF%05d" % rng.randrange(100000); a.au = a.au or text(20)
+        a.wgt = a.wgt or [float("%.2f" % (rng.random() * 10 + 0.01)) for _ in range(n)]
+        a.acc = ["ACC%d" % i for i in range(n)]; a.desc = [text(30) for _ in range(n)]
+        a.sscons = a.sscons or col("<>.-_,:"); a.sacons = a.sacons or col("0123456789"); a.ppcons = a.ppcons or col("0123456789*.")
+        a.rf = a.rf or col("xX.~"); a.mm = a.mm or col("m.")
+        a.ss = [col("HEC.<>") for _ in range(n)]; a.sa = [col("0123456789") for _ in range(n)]; a.pp = [col("0123456789*.") for _ in range(n)]
+        if not a.gf: a.gf = [("CC", text(40)), ("DR", text(40)), ("CC", text(10))]
+        if not a.gc: a.gc = [("CSX", col("abcxyz.*")), ("Long_tag_thing", col("abcxyz.*"))]
+        if not a.gs: a.gs = [("OS", [text(15) for _ in range(n)]), ("LO", [text(15) for _ in range(n)])]
+        if not a.gr: a.gr = [("csa", [col("abc.*") for _ in range(n)]), ("TM", [col("abc.*") for _ in range(n)])]
+        if not a.com: a.com = [text(50), text(50)]
+        a.cut = [float("%.1f" % (rng.random() * 50)) for _ in range(6)]
+
     def gen_aln(self, rng, fmt, abc, quick):
         kind = {"text": rng.choice(["amino", "dna", "rna"]), "amino": "amino", "dna": "dna", "rna": "rna"}[abc]
         big = rng.random() < (0.08 if quick else 0.3)
-        nseq = None if big else rng.choice([1, 2, 3, 5, 8, 17])
-        alen = None if big else rng.choice([1, 2, 10, 59, 60, 61, 121, 200, 201])
+        nseq = None if big else rng.choice([1, 2, 3, 5, 8, 10, 11, 17])
+        alen = None if big else rng.choice([1, 2, 10, 59, 60, 61, 120, 121, 199, 200, 201, 400])
         if abc == "text":
             gaps = {"a2m": "-.", "psiblast": "-", "phylip": "-", "phylips": "-", "clustal": "-", "clustallike": "-"}.get(fmt, "-._~" if fmt in ("stockholm", "pfam") else "-.")
             lower = fmt in ("stockholm", "pfam", "afa", "selex")
         else:
             gaps, lower = "-", False
         maxname = 10 if fmt in ("phylip", "phylips") and rng.random() < 0.7 else 14
+        if rng.random() < 0.1: maxname = rng.choice([11, 25, 40, 90])        # names longer than any fixed field
         a = G.rand_aln(rng, kind, nseq, alen, gapchars=gaps, lower=lower, maxname=maxname,
                        namechars="abcdefghijklmnopqrstuvwxyzABCDEFGHIJKLMNOPQRSTUVWXYZ0123456789_|.:+[]()" + ("/-" if rng.random() < 0.5 else ""))
         if a.n >= 2 and rng.random() < 0.4:
@@ -123,6 +156,12 @@ class C03(Prop):
                 rows.append("".join(r))
             a.rows = rows
         if rng.random() < 0.75: G.annotate(rng, a, full=True)
+        if rng.random() < 0.06: self.annotate_all(rng, a)
+        if a.cut and rng.random() < 0.3:
+            k = rng.choice([1, 3, 5]); a.cut[k] = None          # a single threshold (Rfam style): "#=GF GA x"
+        if a.gs and fmt in ("stockholm", "pfam") and rng.random() < 0.3:
+            # multiply annotated #=GS tag: stored as "v1\nv2", written as two lines
+            t, v = a.gs[-1]; a.gs[-1] = (t, [(x + "\n" + "second %d" % i) if x and rng.random() < 0.5 else x for i, x in enumerate(v)])
         if a.wgt and a.n >= 3 and rng.random() < 0.5:
             # with weights present the sequence order is pinned; thin the other per-sequence fields to non-contiguous subsets
             for f in ("acc", "desc"):
@@ -140,6 +179,13 @@ class C03(Prop):
                 v = getattr(a, first); setattr(a, first, [x if x else "filler%d" % i for i, x in enumerate(v)])
             elif a.gs:
                 t, v = a.gs[0]; a.gs[0] = (t, [x if x else "filler%d" % i for i, x in enumerate(v)])
+        a.dup = False
+        if a.n >= 2 and rng.random() < 0.08:
+            # duplicate sequence names: Stockholm/Pfam force unique names by a "<seq#>|" prefix (the monitor skips its name comparison)
+            i, j = rng.sample(range(a.n), 2); a.names[j] = a.names[i]; a.dup = True
+            if a.n >= 11 and rng.random() < 0.5: a.names = [a.names[i]] * a.n
+            if self.avoid_known and fmt in ("stockholm", "pfam"):
+                a.gs = []        # known finding C03:stockholm:uniq-gs-index (the unparsed #=GS section numbers names with the tag index)
         return a
 
     def generated(self, ctx):
@@ -156,6 +202,10 @@ class C03(Prop):
                   "ops": ["rt fmt=stockholm abc=text n=2 alen=3 nm=61,62 sq=414347,412d47 sqdesc=~,666f6f"]})
         c.append({"name": "psiblast-O", "ops": ["rt fmt=psiblast abc=amino n=2 alen=4 nm=61,62 sq=4143444f,41434445",
                                                   "rt fmt=psiblast abc=text n=2 alen=4 nm=61,62 sq=4143444f,41436f45"]})
+        c.append({"name": "known-stockholm-uniq-gs", "known_key": "C03:stockholm:uniq-gs-index",
+                  "ops": ["rt fmt=stockholm abc=text n=3 alen=3 nm=61,61,62 sq=414347,412d47,414141 gs=4452:~,~,7171"]})
+        c.append({"name": "known-a2m-lowercase-o", "known_key": "C03:a2m:lowercase-o",
+                  "ops": ["rt fmt=a2m abc=text n=2 alen=4 nm=61,62 sq=41436f45,41434445"]})
         return c
 
     def cases(self, ctx):
@@ -173,7 +223,7 @@ class C03(Prop):
             stats["nseq_max"] = max(stats["nseq_max"], a.n); stats["alen_max"] = max(stats["alen_max"], a.alen)
             if a.alen > 200: stats["multi_block"] += 1
             if a.gf or a.gc or a.gs or a.gr or a.com: stats["annotated"] += 1
-            out.append({"name": "rt%d-%s-%s" % (i, fmt, abc), "ops": ["rt fmt=%s abc=%s " % (fmt, abc) + " ".join(aln_fields(a))]})
+            out.append({"name": "rt%d-%s-%s" % (i, fmt, abc), "dup": a.dup, "ops": ["rt fmt=%s abc=%s " % (fmt, abc) + " ".join(aln_fields(a))]})
         return out
 
     # ------------------------------------------------------------------------------------------
@@ -181,15 +231,29 @@ class C03(Prop):
         if line.startswith("fault"): return "fault"
         return line.replace(" leak", "")
 
+    SKIP = ("cmp=", "aopen=", "awhy=", "afmt=", "ard=", "achk=", "asame=", "gopen=", "gabc=")
+
+    @staticmethod
+    def _mask(line):
+        """the numeric VALUE of Stockholm weights / cut-offs is not in the reader model (which are set is): mask the payload on both sides"""
+        line = re.sub(r";w=[0-9a-f,]+", lambda m: ";w=" + re.sub(r"[0-9a-f]{16}", "v", m.group(0)[3:]), line)
+        return re.sub(r";cut=[0-9a-f~,]+", lambda m: ";cut=" + re.sub(r"[0-9a-f]{8}", "v", m.group(0)[5:]), line)
+
     def compare(self, ctx, case, impl_out, model_out):
         n = max(len(impl_out), len(model_out))
         for i in range(n):
             a = self.canonical(impl_out[i]) if i < len(impl_out) else "<missing>"
             b = self.canonical(model_out[i]) if i < len(model_out) else "<missing>"
             if b == "unmodelled": continue
-            # the model answers the part it specifies: build, m, wr, bytes, open, rd + dump + chk + val, rd2, rw
-            a2 = " ".join(t for t in a.split() if not t.startswith(("cmp=", "aopen=", "afmt=", "ard=", "achk=", "asame=", "gopen=", "gabc=")))
-            if a2 != b: return (i, a2[:3000], b[:3000])
+            ta = [t for t in a.split() if not t.startswith(self.SKIP)]
+            tb = b.split()
+            # the model answers the part it specifies (a prefix of the harness's tokens): build, m, wr, bytes, open, rd + dump + chk + val, rd2, rw
+            ta = ta[:len(tb)]
+            for x, y in zip(ta, tb):
+                if x == y: continue
+                if x.startswith(("{", "m={")) and self._mask(x) == self._mask(y): continue     # re-read dump: weight / cut-off payload masked
+                return (i, " ".join(ta)[:3000], " ".join(tb)[:3000])
+            if len(ta) != len(tb): return (i, " ".join(ta)[:3000], " ".join(tb)[:3000])
         return None
 
     def nontrivial(self, case, out):
@@ -222,19 +286,31 @@ class C03(Prop):
             if not t.get("rd", "").startswith("ok"): return Failure("monitor", "library-written output rejected by the reader: rd=%s (%s)" % (t.get("rd"), what))
             if t.get("chk") != "ok" or t.get("val") != "ok": return Failure("monitor", "re-read alignment not well formed chk=%s val=%s (%s)" % (t.get("chk"), t.get("val"), what))
             if t.get("rd2") != "eof": return Failure("monitor", "second read after the written alignment returned %s (%s)" % (t.get("rd2"), what))
-            if t.get("rw") != "same": return Failure("monitor", "re-writing the re-read alignment gives different bytes (%s)" % what)
-            # PHYLIP autodetection is documented to fail (eslEAMBIGUOUS -> enoformat) when the file is consistent with both layouts: one sequence,
-            # one block, or as many lines per sequence as sequences (n blocks of n lines; then the content decides)
-            _n, _blocks = int(kv.get("n", "0")), (int(kv.get("alen", "0")) + 59) // 60
-            ambiguous_phylip = fmt in ("phylip", "phylips") and (_n == 1 or _blocks <= 1 or _blocks == _n)
+            uniq_forced = bool(case.get("dup")) and fmt in ("stockholm", "pfam")       # names get a "<seq#>|" prefix: rewritten bytes and names differ by design
+            if t.get("rw") != "same" and not uniq_forced: return Failure("monitor", "re-writing the re-read alignment gives different bytes (%s)" % what)
+            # esl_msafile_GuessFileFormat documents one way to fail on well-formed PHYLIP: "can't guess format: it's consistent w/ both phylip,
+            # phylips" (eslEAMBIGUOUS from esl_msafile_phylip_CheckFileFormat). The harness asks the guesser for its message (awhy=).
+            ambiguous_phylip = fmt in ("phylip", "phylips") and t.get("awhy") == "ambiguous"
             auto_ok = t.get("aopen") == "ok"
             if not auto_ok and not (t.get("aopen") == "enoformat" and ambiguous_phylip):
                 return Failure("monitor", "autodetection failed on library-written output: %s (%s)" % (t.get("aopen"), what))
             exp_auto = {"pfam": "stockholm", "a2m": "afa", "psiblast": "selex", "clustallike": "clustallike"}.get(fmt, fmt)
-            if auto_ok and t.get("afmt") != exp_auto and not (ambiguous_phylip and t.get("afmt") in ("phylip", "phylips")):
+            # one sequence or one block: the interleaved and the sequential output are the same bytes, either answer is right
+            same_layout = fmt in ("phylip", "phylips") and (kv.get("n") == "1" or int(kv.get("alen", "0")) <= 60)
+            if auto_ok and t.get("afmt") != exp_auto and not (same_layout and t.get("afmt") in ("phylip", "phylips")):
                 return Failure("monitor", "autodetection chose %s for %s output (%s)" % (t.get("afmt"), fmt, what))
             if len(dumps) < 2: return Failure("monitor", "harness answer incomplete (%s)" % what)
             m, m2 = parse_dump(dumps[0]), parse_dump(dumps[1])
+            if uniq_forced:
+                nm = m["nm"].split(","); w = len(str(len(nm)))
+                exp = [(("%0*d|" % (w, i)).encode() + (unhex(x) or b"")).hex() for i, x in enumerate(nm)]
+                if exp != m2["nm"].split(","): return Failure("monitor", "unique-name forcing: unexpected names %s (%s)" % (m2["nm"][:80], what))
+                m = dict(m, nm=m2["nm"]); m2 = dict(m2)
+                # the warning comment line is read back as a comment
+                warn = b"WARNING: seq names have been made unique by adding a prefix of \"<seq#>|\"".hex()
+                com2 = [x for x in m2.get("com", "").split(",") if x and x != warn]
+                if com2: m2["com"] = ",".join(com2)
+                else: m2.pop("com", None)
             f = self.compare_msa(fmt, abc, m, m2)
             if f: return Failure("monitor", "%s (%s)" % (f, what), detail={"orig": dumps[0][:1500], "reread": dumps[1][:1500]})
             if auto_ok and t.get("afmt") == fmt and t.get("ard") == "ok" and t.get("asame") != "yes":
@@ -289,7 +365,7 @@ class C03(Prop):
         return None
 
     def extra_evidence(self, ctx):
-        return {"modelled_formats": MODELLED, "unmodelled_formats": [f for f in ALL_FORMATS if f not in MODELLED],
+        return {"modelled_formats": MODELLED, "writer_only_formats": WRITER_ONLY, "unmodelled_formats": [f for f in ALL_FORMATS if f not in MODELLED and f not in WRITER_ONLY],
                 "claim": "partial: theorems cover the modelled formats; the other formats are covered by the round-trip monitors on the real library (support, not proof)",
                 "input_distribution": ctx.stats.get("generator", {})}
 
